@@ -516,7 +516,8 @@ int main(int argc, char** argv)
 
   // ---- seeds (smallest first)
   const char* root_env = std::getenv("VERIF_ROOT");
-  const std::string root = root_env ? root_env : "/verif";
+  std::string root = root_env ? root_env : "/verif";
+  { struct stat sb; if(stat((root + "/spec/mesh_seeds").c_str(), &sb) != 0) root = "/verif"; }   // an audit may run with a private VERIF_ROOT
   struct SD { const char* name; const char* type; };
   const SD sds[] = {
     {"bezier_closed", "conformal:hypercube:2:2"}, {"partitions", "conformal:hypercube:2:2"}, {"edge1d", "conformal:hypercube:1:1"},
@@ -1257,7 +1258,7 @@ int main(int argc, char** argv)
             if(!g_log.child) c.nontrivial(verif::Hash().str("X").pod(level).pod(dm).pod(gm).get());
           }
     }
-    if(g_log.child) { fflush(stdout); _exit(0); }
+    if(g_log.child) { fflush(stdout); VERIF_COV_DUMP(); _exit(0); }
     if(!g_log.errfile.empty()) unlink(g_log.errfile.c_str());
   });
 }
